@@ -47,3 +47,17 @@ package local
 //@               !EQ(query.Component, componentcfg.FALLBACK_RUNTYPE, componentcfg.FALLBACK_ROLENAME, query.EntryKey)) ==>
 //@       err != nil && resolved == nil
 //@   ensures err == nil ==> resolved != nil && EQ(resolved.Component, resolved.RunType, resolved.RoleName, resolved.EntryKey)
+
+// C07: with the Consul backend a run number is what the atomic counter handed out, or the start fails: the result and the
+// error of GetNextUInt32 are passed on unchanged (a failure is never turned into a number).
+//@ func (s *Service) NewRunNumber() (runNumber uint32, err error)
+//@   property C07
+//@   requires s != nil
+//@   requires s.src is *cfgbackend.ConsulSource ==> s.src.(*cfgbackend.ConsulSource) != nil && s.src.(*cfgbackend.ConsulSource).kv != nil
+//@   requires api.kIdx >= 0 && api.kVal >= 0 && (api.kExists ==> api.kIdx > 0) && (!api.kExists ==> api.kVal == 0)
+//@   ghostvar asked bool = false
+//@   ghostvar lastErr bool = false
+//@   ghostvar got uint32 = 0
+//@   on aftercall (*cfgbackend.ConsulSource).GetNextUInt32 : asked = true ; lastErr = (result1 != nil) ; got = result0
+//@   ensures asked && err == nil ==> !lastErr && runNumber == got
+//@   ensures asked && lastErr ==> err != nil
